@@ -1312,7 +1312,11 @@ class StdRules:
         if name == '__builtin_memcpy':
             em.note_call('memcpy')
             return f"memcpy({em.e(args[0])}, {em.e(args[1])}, {em.e(args[2])})"
-        if name in ('memcmp', 'memset', 'memmove') and len(args) == 3:
+        if name == 'memcmp' and len(args) == 3:
+            # contract model with a ghost witness for the first difference (so that "false implies a difference" needs no loop in the caller)
+            em.note_call('verif_memcmp')
+            return f"verif_memcmp({em.e(args[0])}, {em.e(args[1])}, {em.e(args[2])})"
+        if name in ('memset', 'memmove') and len(args) == 3:
             # C library functions CBMC models itself (their own loops are unwound by CBMC: a symbolic length needs a bound in the harness)
             em.note_call(name)
             return f"{name}({em.e(args[0])}, {em.e(args[1])}, {em.e(args[2])})"
@@ -1913,9 +1917,9 @@ def emit_types(gen):
 
 MODELS_INCLUDE = '#include "models.h"'
 MODEL_FUNCTIONS = ['verif_memcpy', 'vec_u8_make_n', 'vec_u8_copy', 'vec_u8_resize', 'vec_u8_resize_val', 'vec_u8_assign_n', 'vec_u8_assign_copy', 'vec_frames_push_back',
-                   'sv_find', 'sv_from_cstr', 'str_from_int', 'map_slot_index', 'map_slot_erase', 'map_slot_find', 'map_slot_erase_it', 'map_it_deref']
+                   'sv_find', 'sv_from_cstr', 'str_from_int', 'map_slot_index', 'map_slot_erase', 'map_slot_find', 'map_slot_erase_it', 'map_it_deref', 'verif_memcmp']
 
-def run(ast_dir, spec_paths, excluded_path, out_c, out_map, out_report, layouts_path=None, drop=()):
+def run(ast_dir, spec_paths, excluded_path, out_c, out_map, out_report, layouts_path=None, drop=(), strip_ghost=()):
     ctx = Ctx()
     excluded = {}
     if excluded_path and os.path.exists(excluded_path):
@@ -1926,6 +1930,9 @@ def run(ast_dir, spec_paths, excluded_path, out_c, out_map, out_report, layouts_
             excluded[nm] = why.strip()
     fnspecs, harnesses = parse_specs(spec_paths)
     helper_specs = sorted(k for k, v in fnspecs.items() if getattr(v, 'helper', False))
+    for nm in strip_ghost:
+        # the loop this function's ghost code instruments is gone: the function CONTRACT is still enforced, on the new body, without the ghost instrumentation
+        if nm in fnspecs: fnspecs[nm].ghost = {}; fnspecs[nm].loops = {}; fnspecs[nm].capture = set()
     dropped = []
     for nm in drop:
         # a helper contract that does not fit the current code any more: the helper is verified INLINED in its callers instead
@@ -2042,7 +2049,7 @@ def run(ast_dir, spec_paths, excluded_path, out_c, out_map, out_report, layouts_
         harnesses = [h for h in harnesses if h['enforce'] != nm]
         for h in harnesses: h['replace'] = [x for x in h['replace'] if x != nm]
     json.dump({'lines': linemap, 'harnesses': harnesses, 'slices': slices, 'loop_invariants': gen.loop_invs}, open(out_map, 'w'), indent=0)
-    rep = {'unused_loop_contracts': gen.report.get('unused_loop_contracts', []), 'helper_specs': helper_specs, 'dropped_helper_contracts': dropped, 'translated': gen.report['translated'], 'skipped': gen.report['skipped'], 'excluded': gen.report['excluded'],
+    rep = {'ghost_stripped': sorted(strip_ghost), 'unused_loop_contracts': gen.report.get('unused_loop_contracts', []), 'helper_specs': helper_specs, 'dropped_helper_contracts': dropped, 'translated': gen.report['translated'], 'skipped': gen.report['skipped'], 'excluded': gen.report['excluded'],
            'spec_without_target': missing, 'n_records': len(ctx.records), 'n_enums': len(ctx.enums),
            'cnames': {f.cname: {'q': f.q, 'type': f.type_str, 'has_body': f.body is not None} for f in ctx.funcs.values() if f.cname}}
     for nm in gen.helper_protos: rep['cnames'][nm] = {'q': nm + ' (generated helper)', 'type': gen.helper_protos[nm], 'has_body': True}
